@@ -38,35 +38,73 @@ def endsWithWsLine (hb : List Byte) (n : Nat) : Bool :=
   (List.range n).any fun p =>
     (p == 0 || hb[p - 1]? == some LF) && isWsEol ((hb.drop p).take (n - p))
 
+/-- Walks LF-terminated lines from a line start; returns the offset just past the first line that is
+`(SP|HTAB)* (CRLF|LF)` (a strictly empty line included) and STARTS before offset `limit`.
+`ls` = start of the current line, `off` = current offset, `allWs` = only SP/HTAB seen so far in this
+line, `cr` = the previous byte was the (single) CR. -/
+def firstWsLineScan (limit : Nat) : (ls off : Nat) → (allWs cr : Bool) → List Byte → Option Nat
+  | _, _, _, _, [] => none
+  | ls, off, allWs, cr, b :: r =>
+    if limit ≤ ls then none
+    else if b == LF then
+      if allWs then some (off + 1) else firstWsLineScan limit (off + 1) (off + 1) true false r
+    else if b == CR then firstWsLineScan limit ls (off + 1) (allWs && !cr) true r
+    else if isWs b then firstWsLineScan limit ls (off + 1) (allWs && !cr) false r
+    else firstWsLineScan limit ls (off + 1) false false r
+
+def firstWsLine (limit : Nat) (hb : List Byte) : Option Nat := firstWsLineScan limit 0 0 true false hb
+
 /-- framing restriction on a header block `hb` (the bytes after the start line) for status `st`
-whose offsets are relative to `hb`; `nh` = number of headers reported. -/
-def chkFrameBlock (sbf : Bool) (hb : List Byte) (nh : Nat) : (st : St) → Bool
+whose offsets are relative to `hb`.  `firstHdr` = offset (relative to `hb`) of the first header this
+call stored, if any.  Without `allow_space_before_first_header_name`: Complete(n) ⇔ `n` is just past
+the first strictly empty line; Partial ⇒ there is none.  With it, a line of only SP/HTAB that starts
+before the first stored header is empty too: the head ends at the first such line if there is one,
+otherwise at the first strictly empty line.  `fold` = obsolete line folding enabled: then a
+whitespace-led line after a header line is a continuation of that line, not an empty line, also when
+the header line is later dropped by `ignore_invalid_headers` (`a:\n \n \x01\n\n` is one dropped line
+and the terminator), so "the first such line" is not claimed; only: the head ends no later than the
+first strictly empty line, and at it unless no header is stored and it ends at a whitespace-only
+line. -/
+def chkFrameBlock (sbf fold : Bool) (hb : List Byte) (firstHdr : Option Nat) : (st : St) → Bool
   | .c n =>
     n ≤ hb.length &&
     (if sbf then
-       -- a strictly empty line always terminates; a whitespace-only line terminates only
-       -- while no header is stored
-       (match firstEmptyLine hb with
-        | some m => n ≤ m
-        | none => true) &&
-       (firstEmptyLine hb == some n || (nh == 0 && endsWithWsLine hb n))
+       (if fold then
+          (match firstEmptyLine hb with
+           | some m => n ≤ m
+           | none => true) &&
+          (firstEmptyLine hb == some n || (firstHdr == none && endsWithWsLine hb n))
+        else
+          (match firstWsLine (firstHdr.getD (hb.length + 1)) hb with
+           | some m => n == m
+           | none => firstEmptyLine hb == some n))
      else firstEmptyLine hb == some n)
-  | .p => firstEmptyLine hb == none
+  | .p =>
+    firstEmptyLine hb == none &&
+    -- (with folding on, a whitespace-led line after a header line still in progress is a continuation,
+    -- not an empty line, so the whitespace-line clause is only claimed without folding)
+    (if sbf && !fold then firstWsLine (firstHdr.getD (hb.length + 1)) hb == none else true)
   | _ => true
+
+/-- offset of the first header of this call found in the array (or among the exposed headers) -/
+def Obs.firstHdrOff (o : Obs) : Option Nat :=
+  (o.arrA ++ o.arrU).findSome? fun s => match s with
+    | .hdr ⟨.at off _, _⟩ => some off
+    | _ => none
 
 def chkC03 (k : Kind) (cfg : Config) (buf : List Byte) (o : Obs) : Bool :=
   match k with
-  | .hdrs => chkFrameBlock false buf o.hdrs.length o.st
+  | .hdrs => chkFrameBlock false false buf o.firstHdrOff o.st
   | _ =>
     match o.st with
     | .c n =>
       n ≤ buf.length &&
       (match startLineEnd buf with
-       | some s => s ≤ n && chkFrameBlock cfg.spaceBeforeFirst (buf.drop s) o.hdrs.length (.c (n - s))
+       | some s => s ≤ n && chkFrameBlock cfg.spaceBeforeFirst (k.hcfg cfg).fold (buf.drop s) (o.firstHdrOff.map (· - s)) (.c (n - s))
        | none => false)
     | .p =>
       (match startLineEnd buf with
-       | some s => chkFrameBlock cfg.spaceBeforeFirst (buf.drop s) 0 .p
+       | some s => chkFrameBlock cfg.spaceBeforeFirst (k.hcfg cfg).fold (buf.drop s) (o.firstHdrOff.map (· - s)) .p
        | none => true)
     | _ => true
 
